@@ -1236,6 +1236,77 @@ def run(limit, n):
 ''', [("run", [(None, 7), (3, 7)])])
 
 
+# ---- defaults are bound when the helper is defined, not when it is called
+case('''
+def run(routes):
+    out = []
+    handlers = []
+    for route in routes:
+        def _log(e, route=route):
+            out.append((route, e))
+        def handler(x, fn=len):
+            try:
+                return fn(x)
+            except Exception as e:
+                _log(type(e).__name__)
+                return -1
+        handlers.append(handler)
+    route = "late"
+    res = [h(None) for h in handlers] + [h("ab") for h in handlers]
+    return res, out
+
+def _acc(x, bucket=[]):
+    bucket.append(x)
+    return len(bucket)
+
+def run2():
+    return _acc(1), _acc(2), _acc(3)
+''', [("run", [(["a", "b"],), ([],)]), ("run2", [()])])
+
+
+# ---- decorator factories with fixed-parameter (async) wrappers: arguments stay bound to what they were at decoration time
+case('''
+import asyncio
+
+def _answer_on_failure(log_failure):
+    """report and answer 400"""
+    def decorate(handler):
+        async def contained(request):
+            try:
+                return await handler(request)
+            except Exception as e:
+                log_failure(e)
+                return ("400", str(request))
+        return contained
+    return decorate
+
+def _twice(handler):
+    def w(x):
+        return handler(x) * 2
+    return w
+
+def run(routes, reqs):
+    out = []
+    handlers = {}
+    for route in routes:
+        def _log(e, route=route):
+            out.append((route, type(e).__name__))
+
+        @_answer_on_failure(_log)
+        async def _get(request, fn=len):
+            assert request is not None
+            return ("200", fn(request))
+        handlers[route] = _get
+    route = "late"
+
+    @_twice
+    def dbl(x):
+        return x + 1
+    res = [asyncio.run(handlers[r](q)) for r, q in reqs]
+    return res, out, dbl(3)
+''', [("run", [(["a", "b"], [("a", "xy"), ("b", None), ("a", 5), ("b", "zzz")]), ([], [])])])
+
+
 def outcome(ns, fn, args):
     import copy
     try:
